@@ -19,7 +19,16 @@ pub struct Series1 {
 impl Series1 {
     /// Creates a new series from a pair of vectors, one for x values and one for y values. The two
     /// vectors must be the same length, and the x values must be sorted from smallest to largest.
+    ///
+    /// # Panics
+    ///
+    /// Panics if `x` and `y` do not have the same length. Use `try_new` to get an error instead.
     pub fn new(x: DiscreteDomain, y: Vec<f64>) -> Self {
+        assert_eq!(
+            x.len(),
+            y.len(),
+            "a series needs exactly one y value for every x value"
+        );
         Self { x, y }
     }
 
